@@ -160,10 +160,31 @@ def gen_sec_nums(rng):
 def gen_desc(rng, max_len=250):
     """A full PLSS description text."""
     for _ in range(20):
-        txt = _gen_desc_once(rng)
+        txt = _decorate(rng, _gen_desc_once(rng))
         if len(txt) <= max_len:
             return txt
     return "T154N-R97W Sec 14: NE/4"
+
+
+def _decorate(rng, txt):
+    """Rare but realistic dressing of a description."""
+    r = rng.random()
+    if r < 0.04:
+        txt += rng.choice((";", ",", " and", ":", " -", " of the", "."))
+    elif r < 0.06:
+        txt = txt.replace("\n", "\r\n")          # Windows line endings
+    elif r < 0.075:
+        txt = txt.replace("\n", "\r")             # old Mac / broken export
+    elif r < 0.085:
+        txt = rng.choice(("=", "@ ", "+", "-")) + txt
+    elif r < 0.095:
+        a = rng.randint(1, 12)
+        b = a + rng.randint(15, 22)
+        t, rr = rng.randint(1, 160), rng.randint(1, 105)
+        txt = (f"T{t}N-R{rr}W Sections {a} - {min(b, 36)}: "
+               + rng.choice(("N/2NE/4, NE/4", "Lots 1, 1", "ALL",
+                             "Lots 3 - 1, W/2")))
+    return txt
 
 
 def _gen_desc_once(rng):
